@@ -72,6 +72,9 @@ def gen_plan(wl, fr, idx):
     plan['n_jobs'] = wl.choice(sorted({1, 2, 3, max(1, R - 1), R, R + 1, 2 * R + 1}) + [-1])
     if wl.random() < 0.2:
         plan['array_variant'] = wl.choice(('fortran', 'strided', 'f32'))
+    plan['positional'] = wl.random() < 0.3          # documented parameter order is API too
+    plan['f_range_list'] = wl.random() < 0.2
+    plan['fs_float'] = wl.random() < 0.2
     plan['progress'] = wl.choice((None, None, 'tqdm', 'tqdm.notebook'))
     plan['tqdm'] = wl.choice(('absent', 'stub'))
     if wl.random() < 0.05 and R >= 2:
@@ -122,6 +125,10 @@ def execute(plan, tape):
     res = Result()
     band = plan['band']
     fs, f_range = band['fs'], tuple(band['f_range'])
+    if plan.get('f_range_list'):
+        f_range = list(f_range)
+    if plan.get('fs_float'):
+        fs = float(fs)
     sigs = _variant(np.array([build_signal(s, band) for s in plan['rows']]), plan.get('array_variant'))
     R = len(sigs)
 
@@ -159,20 +166,31 @@ def execute(plan, tape):
                                     if opt['list'][a] == opt['list'][b]:
                                         kw[a] = kw[b]
                                         break
-                    out = compute_features_2d(sigs, fs, f_range, compute_features_kwargs=kw, axis=0,
-                                              return_samples=plan['return_samples'],
-                                              n_jobs=plan['n_jobs'], progress=plan['progress'])
+                    if plan.get('positional'):
+                        out = compute_features_2d(sigs, fs, f_range, kw, 0, plan['return_samples'],
+                                                  plan['n_jobs'], plan['progress'])
+                    else:
+                        out = compute_features_2d(sigs, fs, f_range, compute_features_kwargs=kw, axis=0,
+                                                  return_samples=plan['return_samples'],
+                                                  n_jobs=plan['n_jobs'], progress=plan['progress'])
                 else:
                     from bycycle.objs import BycycleGroup
                     c = ref.live(plan['ctor'])
-                    bg = BycycleGroup(center_extrema=c['center_extrema'], burst_method=c['burst_method'],
-                                      burst_kwargs=c['burst_kwargs'], thresholds=c['thresholds'],
-                                      find_extrema_kwargs=c['find_extrema_kwargs'],
-                                      return_samples=c['return_samples'])
+                    if plan.get('positional'):
+                        bg = BycycleGroup(c['center_extrema'], c['burst_method'], c['burst_kwargs'],
+                                          c['thresholds'], c['find_extrema_kwargs'], c['return_samples'])
+                    else:
+                        bg = BycycleGroup(center_extrema=c['center_extrema'], burst_method=c['burst_method'],
+                                          burst_kwargs=c['burst_kwargs'], thresholds=c['thresholds'],
+                                          find_extrema_kwargs=c['find_extrema_kwargs'],
+                                          return_samples=c['return_samples'])
                     if plan.get('prefit'):
                         # the object was used before: an earlier fit on other data of the same shape
                         bg.fit(-sigs[::-1] * 0.5, fs, f_range, axis=0, n_jobs=1, progress=None)
-                    bg.fit(sigs, fs, f_range, axis=0, n_jobs=plan['n_jobs'], progress=plan['progress'])
+                    if plan.get('positional'):
+                        bg.fit(sigs, fs, f_range, 0, plan['n_jobs'], plan['progress'])
+                    else:
+                        bg.fit(sigs, fs, f_range, axis=0, n_jobs=plan['n_jobs'], progress=plan['progress'])
                     out = bg.df_features
             except SimDeadlock as e:
                 res.violate('no-return', 'deadlock', 'the call blocks forever: %s' % e)
@@ -325,7 +343,8 @@ def shrink(plan):
                 yield p
     for key, val in (('n_jobs', 1), ('n_jobs', 2), ('progress', None), ('tqdm', 'absent'),
                      ('return_samples', True), ('prefit', False), ('alias_equal', False),
-                     ('array_variant', None)):
+                     ('array_variant', None), ('positional', False), ('f_range_list', False),
+                     ('fs_float', False)):
         if key in plan and plan[key] != val:
             p = copy.deepcopy(plan)
             p[key] = val
